@@ -302,7 +302,8 @@ Print Assumptions log2_correct.
 
 (** ** (d) cds/algo/split_bitstring.h : number_splitter<Int>
     [run cut st widths] applies cut successively; [joinf] concatenates (value, width) fields, first field lowest;
-    a width is legal when [1 <= c < 8*sizeof(Int)] (is_correct); [clip] is the width actually delivered by safe_cut. *)
+    a width is legal for cut when [1 <= c < 8*sizeof(Int)] (is_correct), for safe_cut when [1 <= c < 2^32];
+    [clip] is the width actually delivered by safe_cut. *)
 
 Theorem number_splitter_i16_cut_sequence_reconstructs :
   forall n cs, ok_i16 n -> Forall (legal 16) cs -> C25_Fields.zsum cs = 16 ->
@@ -312,9 +313,9 @@ Proof. exact ns_i16_cut_sequence. Qed.
 Print Assumptions number_splitter_i16_cut_sequence_reconstructs.
 
 Theorem number_splitter_i16_safe_cut_sequence_reconstructs :
-  forall n cs, ok_i16 n -> Forall (legal 16) cs -> 16 <= C25_Fields.zsum cs ->
+  forall n cs, ok_i16 n -> Forall legal_safe cs -> 16 <= C25_Fields.zsum cs ->
   exists vs, run Gen_split.ns_i16 Gen_split.ns_i16_safe_cut (Gen_split.mk_ns_i16 n 0) cs = Some (vs, Gen_split.mk_ns_i16 n 16) /\
-             length vs = length cs /\ joinf (combine vs (clip 16 0 cs)) = n mod 2 ^ 16.
+             length vs = length cs /\ joinf (combine vs (clip 16 0 cs)) mod 2 ^ 16 = n mod 2 ^ 16.
 Proof. exact ns_i16_safe_cut_sequence. Qed.
 Print Assumptions number_splitter_i16_safe_cut_sequence_reconstructs.
 
@@ -326,7 +327,7 @@ Proof. exact ns_u16_cut_sequence. Qed.
 Print Assumptions number_splitter_u16_cut_sequence_reconstructs.
 
 Theorem number_splitter_u16_safe_cut_sequence_reconstructs :
-  forall n cs, ok_u16 n -> Forall (legal 16) cs -> 16 <= C25_Fields.zsum cs ->
+  forall n cs, ok_u16 n -> Forall legal_safe cs -> 16 <= C25_Fields.zsum cs ->
   exists vs, run Gen_split.ns_u16 Gen_split.ns_u16_safe_cut (Gen_split.mk_ns_u16 n 0) cs = Some (vs, Gen_split.mk_ns_u16 n 16) /\
              length vs = length cs /\ joinf (combine vs (clip 16 0 cs)) = n mod 2 ^ 16.
 Proof. exact ns_u16_safe_cut_sequence. Qed.
@@ -340,9 +341,9 @@ Proof. exact ns_i32_cut_sequence. Qed.
 Print Assumptions number_splitter_i32_cut_sequence_reconstructs.
 
 Theorem number_splitter_i32_safe_cut_sequence_reconstructs :
-  forall n cs, ok_i32 n -> Forall (legal 32) cs -> 32 <= C25_Fields.zsum cs ->
+  forall n cs, ok_i32 n -> Forall legal_safe cs -> 32 <= C25_Fields.zsum cs ->
   exists vs, run Gen_split.ns_i32 Gen_split.ns_i32_safe_cut (Gen_split.mk_ns_i32 n 0) cs = Some (vs, Gen_split.mk_ns_i32 n 32) /\
-             length vs = length cs /\ joinf (combine vs (clip 32 0 cs)) = n mod 2 ^ 32.
+             length vs = length cs /\ joinf (combine vs (clip 32 0 cs)) mod 2 ^ 32 = n mod 2 ^ 32.
 Proof. exact ns_i32_safe_cut_sequence. Qed.
 Print Assumptions number_splitter_i32_safe_cut_sequence_reconstructs.
 
@@ -354,7 +355,7 @@ Proof. exact ns_u32_cut_sequence. Qed.
 Print Assumptions number_splitter_u32_cut_sequence_reconstructs.
 
 Theorem number_splitter_u32_safe_cut_sequence_reconstructs :
-  forall n cs, ok_u32 n -> Forall (legal 32) cs -> 32 <= C25_Fields.zsum cs ->
+  forall n cs, ok_u32 n -> Forall legal_safe cs -> 32 <= C25_Fields.zsum cs ->
   exists vs, run Gen_split.ns_u32 Gen_split.ns_u32_safe_cut (Gen_split.mk_ns_u32 n 0) cs = Some (vs, Gen_split.mk_ns_u32 n 32) /\
              length vs = length cs /\ joinf (combine vs (clip 32 0 cs)) = n mod 2 ^ 32.
 Proof. exact ns_u32_safe_cut_sequence. Qed.
@@ -368,9 +369,9 @@ Proof. exact ns_i64_cut_sequence. Qed.
 Print Assumptions number_splitter_i64_cut_sequence_reconstructs.
 
 Theorem number_splitter_i64_safe_cut_sequence_reconstructs :
-  forall n cs, ok_i64 n -> Forall (legal 64) cs -> 64 <= C25_Fields.zsum cs ->
+  forall n cs, ok_i64 n -> Forall legal_safe cs -> 64 <= C25_Fields.zsum cs ->
   exists vs, run Gen_split.ns_i64 Gen_split.ns_i64_safe_cut (Gen_split.mk_ns_i64 n 0) cs = Some (vs, Gen_split.mk_ns_i64 n 64) /\
-             length vs = length cs /\ joinf (combine vs (clip 64 0 cs)) = n mod 2 ^ 64.
+             length vs = length cs /\ joinf (combine vs (clip 64 0 cs)) mod 2 ^ 64 = n mod 2 ^ 64.
 Proof. exact ns_i64_safe_cut_sequence. Qed.
 Print Assumptions number_splitter_i64_safe_cut_sequence_reconstructs.
 
@@ -382,7 +383,7 @@ Proof. exact ns_u64_cut_sequence. Qed.
 Print Assumptions number_splitter_u64_cut_sequence_reconstructs.
 
 Theorem number_splitter_u64_safe_cut_sequence_reconstructs :
-  forall n cs, ok_u64 n -> Forall (legal 64) cs -> 64 <= C25_Fields.zsum cs ->
+  forall n cs, ok_u64 n -> Forall legal_safe cs -> 64 <= C25_Fields.zsum cs ->
   exists vs, run Gen_split.ns_u64 Gen_split.ns_u64_safe_cut (Gen_split.mk_ns_u64 n 0) cs = Some (vs, Gen_split.mk_ns_u64 n 64) /\
              length vs = length cs /\ joinf (combine vs (clip 64 0 cs)) = n mod 2 ^ 64.
 Proof. exact ns_u64_safe_cut_sequence. Qed.
@@ -396,9 +397,9 @@ Proof. exact ns_i64ll_cut_sequence. Qed.
 Print Assumptions number_splitter_i64ll_cut_sequence_reconstructs.
 
 Theorem number_splitter_i64ll_safe_cut_sequence_reconstructs :
-  forall n cs, ok_i64ll n -> Forall (legal 64) cs -> 64 <= C25_Fields.zsum cs ->
+  forall n cs, ok_i64ll n -> Forall legal_safe cs -> 64 <= C25_Fields.zsum cs ->
   exists vs, run Gen_split.ns_i64ll Gen_split.ns_i64ll_safe_cut (Gen_split.mk_ns_i64ll n 0) cs = Some (vs, Gen_split.mk_ns_i64ll n 64) /\
-             length vs = length cs /\ joinf (combine vs (clip 64 0 cs)) = n mod 2 ^ 64.
+             length vs = length cs /\ joinf (combine vs (clip 64 0 cs)) mod 2 ^ 64 = n mod 2 ^ 64.
 Proof. exact ns_i64ll_safe_cut_sequence. Qed.
 Print Assumptions number_splitter_i64ll_safe_cut_sequence_reconstructs.
 
@@ -410,21 +411,64 @@ Proof. exact ns_u64ll_cut_sequence. Qed.
 Print Assumptions number_splitter_u64ll_cut_sequence_reconstructs.
 
 Theorem number_splitter_u64ll_safe_cut_sequence_reconstructs :
-  forall n cs, ok_u64ll n -> Forall (legal 64) cs -> 64 <= C25_Fields.zsum cs ->
+  forall n cs, ok_u64ll n -> Forall legal_safe cs -> 64 <= C25_Fields.zsum cs ->
   exists vs, run Gen_split.ns_u64ll Gen_split.ns_u64ll_safe_cut (Gen_split.mk_ns_u64ll n 0) cs = Some (vs, Gen_split.mk_ns_u64ll n 64) /\
              length vs = length cs /\ joinf (combine vs (clip 64 0 cs)) = n mod 2 ^ 64.
 Proof. exact ns_u64ll_safe_cut_sequence. Qed.
 Print Assumptions number_splitter_u64ll_safe_cut_sequence_reconstructs.
 
-(** Inputs the code does not reject: safe_cut(width) on a fresh 32/64-bit number is undefined behaviour. *)
+(** safe_cut(count >= width) on a fresh splitter returns the whole number and reaches end-of-stream (repo commit
+    096bd5f; before it this was a shift by the full width, undefined).  [legal_safe c] is [1 <= c < 2^32]; for the
+    signed types the whole-number result is the (possibly negative) number itself, hence "mod 2^w" above. *)
+Theorem number_splitter_i16_safe_cut_whole_number :
+  forall n c, ok_i16 n -> legal_safe c -> 16 <= c ->
+  Gen_split.ns_i16_safe_cut (Gen_split.mk_ns_i16 n 0) c = Some (n, Gen_split.mk_ns_i16 n 16) /\
+  Gen_split.ns_i16_eos (Gen_split.mk_ns_i16 n 16) = Some true.
+Proof. exact (fun n c Hn Hc Hw => conj (ns_i16_safe_cut_full n c Hn Hc Hw) (ns_i16_eos_at_end n)). Qed.
+Print Assumptions number_splitter_i16_safe_cut_whole_number.
+Theorem number_splitter_u16_safe_cut_whole_number :
+  forall n c, ok_u16 n -> legal_safe c -> 16 <= c ->
+  Gen_split.ns_u16_safe_cut (Gen_split.mk_ns_u16 n 0) c = Some (n, Gen_split.mk_ns_u16 n 16) /\
+  Gen_split.ns_u16_eos (Gen_split.mk_ns_u16 n 16) = Some true.
+Proof. exact (fun n c Hn Hc Hw => conj (ns_u16_safe_cut_full n c Hn Hc Hw) (ns_u16_eos_at_end n)). Qed.
+Print Assumptions number_splitter_u16_safe_cut_whole_number.
+Theorem number_splitter_i32_safe_cut_whole_number :
+  forall n c, ok_i32 n -> legal_safe c -> 32 <= c ->
+  Gen_split.ns_i32_safe_cut (Gen_split.mk_ns_i32 n 0) c = Some (n, Gen_split.mk_ns_i32 n 32) /\
+  Gen_split.ns_i32_eos (Gen_split.mk_ns_i32 n 32) = Some true.
+Proof. exact (fun n c Hn Hc Hw => conj (ns_i32_safe_cut_full n c Hn Hc Hw) (ns_i32_eos_at_end n)). Qed.
+Print Assumptions number_splitter_i32_safe_cut_whole_number.
+Theorem number_splitter_u32_safe_cut_whole_number :
+  forall n c, ok_u32 n -> legal_safe c -> 32 <= c ->
+  Gen_split.ns_u32_safe_cut (Gen_split.mk_ns_u32 n 0) c = Some (n, Gen_split.mk_ns_u32 n 32) /\
+  Gen_split.ns_u32_eos (Gen_split.mk_ns_u32 n 32) = Some true.
+Proof. exact (fun n c Hn Hc Hw => conj (ns_u32_safe_cut_full n c Hn Hc Hw) (ns_u32_eos_at_end n)). Qed.
+Print Assumptions number_splitter_u32_safe_cut_whole_number.
+Theorem number_splitter_i64_safe_cut_whole_number :
+  forall n c, ok_i64 n -> legal_safe c -> 64 <= c ->
+  Gen_split.ns_i64_safe_cut (Gen_split.mk_ns_i64 n 0) c = Some (n, Gen_split.mk_ns_i64 n 64) /\
+  Gen_split.ns_i64_eos (Gen_split.mk_ns_i64 n 64) = Some true.
+Proof. exact (fun n c Hn Hc Hw => conj (ns_i64_safe_cut_full n c Hn Hc Hw) (ns_i64_eos_at_end n)). Qed.
+Print Assumptions number_splitter_i64_safe_cut_whole_number.
+Theorem number_splitter_u64_safe_cut_whole_number :
+  forall n c, ok_u64 n -> legal_safe c -> 64 <= c ->
+  Gen_split.ns_u64_safe_cut (Gen_split.mk_ns_u64 n 0) c = Some (n, Gen_split.mk_ns_u64 n 64) /\
+  Gen_split.ns_u64_eos (Gen_split.mk_ns_u64 n 64) = Some true.
+Proof. exact (fun n c Hn Hc Hw => conj (ns_u64_safe_cut_full n c Hn Hc Hw) (ns_u64_eos_at_end n)). Qed.
+Print Assumptions number_splitter_u64_safe_cut_whole_number.
+Theorem number_splitter_i64ll_safe_cut_whole_number :
+  forall n c, ok_i64ll n -> legal_safe c -> 64 <= c ->
+  Gen_split.ns_i64ll_safe_cut (Gen_split.mk_ns_i64ll n 0) c = Some (n, Gen_split.mk_ns_i64ll n 64) /\
+  Gen_split.ns_i64ll_eos (Gen_split.mk_ns_i64ll n 64) = Some true.
+Proof. exact (fun n c Hn Hc Hw => conj (ns_i64ll_safe_cut_full n c Hn Hc Hw) (ns_i64ll_eos_at_end n)). Qed.
+Print Assumptions number_splitter_i64ll_safe_cut_whole_number.
+Theorem number_splitter_u64ll_safe_cut_whole_number :
+  forall n c, ok_u64ll n -> legal_safe c -> 64 <= c ->
+  Gen_split.ns_u64ll_safe_cut (Gen_split.mk_ns_u64ll n 0) c = Some (n, Gen_split.mk_ns_u64ll n 64) /\
+  Gen_split.ns_u64ll_eos (Gen_split.mk_ns_u64ll n 64) = Some true.
+Proof. exact (fun n c Hn Hc Hw => conj (ns_u64ll_safe_cut_full n c Hn Hc Hw) (ns_u64ll_eos_at_end n)). Qed.
+Print Assumptions number_splitter_u64ll_safe_cut_whole_number.
 
-Theorem number_splitter_safe_cut_full_width_is_UB :
-  (forall n, Gen_split.ns_u32_safe_cut (Gen_split.mk_ns_u32 n 0) 32 = None) /\
-  (forall n, Gen_split.ns_i32_safe_cut (Gen_split.mk_ns_i32 n 0) 32 = None) /\
-  (forall n, Gen_split.ns_u64_safe_cut (Gen_split.mk_ns_u64 n 0) 64 = None) /\
-  (forall n, Gen_split.ns_i64_safe_cut (Gen_split.mk_ns_i64 n 0) 64 = None).
-Proof. exact (conj ns_u32_safe_cut_full_width_ub (conj ns_i32_safe_cut_full_width_ub (conj ns_u64_safe_cut_full_width_ub ns_i64_safe_cut_full_width_ub))). Qed.
-Print Assumptions number_splitter_safe_cut_full_width_is_UB.
 
 (** ** (d) byte_splitter and split_bitstring over a byte array
     [mem] is the source object as a list of bytes (each in [0,256)), [mval mem] the little-endian number they form
@@ -546,6 +590,12 @@ Example bitop_nonvacuous :
   Gen_bitop.sbc32 0xf0f01234 = Some 13 /\ Gen_bitop.complement32 5 31 = Some (false, 0x80000005) /\
   Gen_bitop.complement32 5 32 = None /\ Gen_int_algo.ceil2 17 = Some 32 /\ Gen_int_algo.log2ceil 1025 = Some 11 /\
   Gen_int_algo.floor2 0 = Some 1.
+Proof. vm_compute. repeat split. Qed.
+
+Example number_splitter_safe_whole_nonvacuous :
+  Gen_split.ns_u32_safe_cut (Gen_split.mk_ns_u32 0x12345678 0) 32 = Some (0x12345678, Gen_split.mk_ns_u32 0x12345678 32) /\
+  Gen_split.ns_i64_safe_cut (Gen_split.mk_ns_i64 (-2) 0) 200 = Some (-2, Gen_split.mk_ns_i64 (-2) 64) /\
+  run Gen_split.ns_i32 Gen_split.ns_i32_safe_cut (Gen_split.mk_ns_i32 (-2) 0) [32; 5] = Some ([-2; 0], Gen_split.mk_ns_i32 (-2) 32).
 Proof. vm_compute. repeat split. Qed.
 
 Example number_splitter_nonvacuous :
